@@ -27,6 +27,8 @@ DefaultOpts == [special |-> DefaultSpecial,
                 skipDrive |-> FALSE,       \* WithSkipWindowsDriveLetterNormalization
                 skipTrail |-> FALSE,       \* WithSkipTrailingSlashNormalization
                 preHost |-> "none",        \* WithPreParseHostFunc: "none" | "gsb" (trim dots, collapse dot runs) | "semantic" (same; empty -> 0.0.0.0)
+                                           \*   | "trim" (strings.Trim(h, ".")) | "const" (always "const.example", also for the empty host)
+                postHost |-> "none",       \* WithPostParseHostFunc: "none" | "const" (always "post.example"); applied to a DOMAIN result only
                 lax |-> FALSE,             \* WithLaxHostParsing
                 acceptInvalid |-> FALSE,   \* WithAcceptInvalidCodepoints (host state keeps the raw byte of an invalid code point)
                 latin1 |-> FALSE]          \* WithEncodingOverride(ISO8859_1)
@@ -95,7 +97,11 @@ RECURSIVE TrimDotsR(_)
 TrimDotsR(h) == IF h # <<>> /\ Last(h) = 46 THEN TrimDotsR(Front(h)) ELSE h
 RECURSIVE SqueezeDots(_)
 SqueezeDots(h) == IF Len(h) < 2 THEN h ELSE IF h[1] = 46 /\ h[2] = 46 THEN SqueezeDots(Tail(h)) ELSE <<h[1]>> \o SqueezeDots(Tail(h))
-PreHost(o, h) == IF o.preHost = "none" \/ h = <<>> THEN h
+CONSTEXAMPLE == <<99, 111, 110, 115, 116, 46, 101, 120, 97, 109, 112, 108, 101>>     \* "const.example"
+POSTEXAMPLE == <<112, 111, 115, 116, 46, 101, 120, 97, 109, 112, 108, 101>>           \* "post.example"
+PreHost(o, h) == IF o.preHost = "const" THEN CONSTEXAMPLE
+                 ELSE IF o.preHost = "none" \/ h = <<>> THEN h
+                 ELSE IF o.preHost = "trim" THEN TrimDotsR(TrimDotsL(h))
                  ELSE LET t == SqueezeDots(TrimDotsR(TrimDotsL(h))) IN
                       IF t = <<>> /\ o.preHost = "semantic" THEN <<48, 46, 48, 46, 48, 46, 48>> ELSE t
 (* percent-encoding of one code point under the options: with the Latin-1 override an encoded code point is ONE byte
@@ -135,7 +141,7 @@ ParseHostO(o, buf, isOpaque, idna) ==
                     IF \E i \in 1..Len(ad) : IsForbiddenDomain(ad[i]) THEN (IF o.lax THEN HostOk(EncStrSP(o, SetHostPE, ad), asked, "lax-forbidden") ELSE HostFail(asked))
                     ELSE IF EndsInANumber(ad) THEN
                          (LET v4 == ParseIPv4(ad) IN IF v4 = None THEN HostFail(asked) ELSE HostOk(SerIPv4(Get(v4)), asked, "ipv4"))
-                    ELSE HostOk(ad, asked, "domain")
+                    ELSE HostOk(IF o.postHost = "const" THEN POSTEXAMPLE ELSE ad, asked, "domain")
 
 StSchemeStart(s, c) ==
   IF IsAlpha(c) THEN [s EXCEPT !.buf = Append(@, Lower(c)), !.st = "scheme"]
